@@ -43,15 +43,18 @@ Section Chk.
   Definition same_set (eps : K) (l1 l2 : list (K * K)) : bool :=
     forallb (fun tt => close_in eps tt l2) l1 && forallb (fun tt => close_in eps tt l1) l2.
   (* case: seg1, seg2, tol*size, seg1.intersect(seg2), seg2.intersect(seg1), eps of the swap comparison *)
-  Definition pcase : Type := (seg K * seg K * K * list (K * K) * list (K * K) * K)%type.
+  (* strict: the two operand orders must return the same NUMBER of pairs and the same pairs up to
+     eps0 (required of Bezier-Bezier pairs: the subdivision is symmetric in its operands) *)
+  Definition pcase : Type := (seg K * seg K * K * list (K * K) * list (K * K) * K * K * bool)%type.
   Definition pok (c : pcase) : nat :=
-    let '(s1, s2, tolsize, r12, r21, eps) := c in
+    let '(s1, s2, tolsize, r12, r21, eps, eps0, strict) := c in
     first_fail
       [ (forallb range_ok r12, 1);                      (* 0 <= t1,t2 <= 1 *)
         (forallb (resid_ok s1 s2 tolsize) r12, 2);      (* the two points coincide within tol*size *)
         (forallb range_ok r21, 3);
         (forallb (resid_ok s2 s1 tolsize) r21, 4);
-        (same_set eps r12 (map swap r21), 5) ].         (* same crossings, parameters exchanged *)
+        (same_set eps r12 (map swap r21), 5);           (* same crossings, parameters exchanged *)
+        (negb strict || (Nat.eqb (length r12) (length r21) && same_set eps0 r12 (map swap r21)), 6) ].
 End Chk.
 Definition no_bbK {K} (a b : list (Cplx K)) : ires (list (K * K)) := IException.
 Definition no_arcK {K} (a : arc K) (s : seg K) : ires (list (K * K)) := IException.
@@ -417,12 +420,14 @@ def run_pairs(rep, K, tmp, pairs, secs):
         stats['reported_pairs'] += len(a12) + len(a21)
         arc = 'A' in (d1[0], d2[0])
         if arc:
-            term = '(%s, %s, %s, %s, %s, %s)' % (ic.seg_term(s1, cbf, bf), ic.seg_term(s2, cbf, bf), bf(tolsize),
-                                                 ic.pairs_term(a12, bf), ic.pairs_term(a21, bf), bf(1e-4))
+            term = '(%s, %s, %s, %s, %s, %s, %s, false)' % (ic.seg_term(s1, cbf, bf), ic.seg_term(s2, cbf, bf), bf(tolsize),
+                                                            ic.pairs_term(a12, bf), ic.pairs_term(a21, bf), bf(1e-4), bf(2.0 ** -40))
             bcases.append(term); bmeta.append((d1, d2, meta, a12, a21, size))
         else:
-            term = '(%s, %s, %s, %s, %s, %s)' % (ic.seg_term(s1), ic.seg_term(s2), qc(tolsize),
-                                                 ic.pairs_term(a12), ic.pairs_term(a21), qc(1e-4))
+            strict = core_of(d1, d2) == 'subdivision' and k12 == 0 and k21 == 0
+            term = '(%s, %s, %s, %s, %s, %s, %s, %s)' % (ic.seg_term(s1), ic.seg_term(s2), qc(tolsize),
+                                                         ic.pairs_term(a12), ic.pairs_term(a21), qc(1e-4), qc(2.0 ** -40),
+                                                         common.coq_bool(strict))
             qcases.append(term); qmeta.append((d1, d2, meta, a12, a21, size))
     nfail = 0
     for cases, metas, okdef, pre, name in ((qcases, qmeta, OK_Q, '', 'pq'), (bcases, bmeta, OK_B, '', 'pb')):
@@ -451,7 +456,7 @@ def run_pairs(rep, K, tmp, pairs, secs):
                       pair_replay(d1, d2, meta, {'pair': list(worst), 'residual': res, 'size': size,
                                                  'order': 'seg1.intersect(seg2)' if code == 2 else 'seg2.intersect(seg1)'}),
                       size)
-            elif code == 5:
+            elif code in (5, 6):
                 skey = 'swap-asymmetry-%s' % (ic.arc_branch(d1, d2) if core == 'arc' else core)
                 if skey == 'swap-asymmetry-arc-arc-subdivision' and size < 0.1:
                     # seen at small scale only: the absolute stopping tolerance again
@@ -461,8 +466,9 @@ def run_pairs(rep, K, tmp, pairs, secs):
                     # cause as C12 subdivision-missed-crossing): pinned variant only
                     skey = ic.pinned_key(skey, ic.detect_variants()['rm_fixed'])
                 K.add(skey,
-                      'C11: seg1.intersect(seg2) and seg2.intersect(seg1) do not report the same crossings (%s, %s): %s vs %s'
-                      % (lab, meta.get('config'), a12[:4], a21[:4]),
+                      'C11: seg1.intersect(seg2) and seg2.intersect(seg1) do not report the same %s (%s, %s): %d pairs %s vs %d pairs %s'
+                      % ('crossings' if code == 5 else 'pairs (the subdivision is symmetric in its operands: same number, '
+                         'same parameters exchanged)', lab, meta.get('config'), len(a12), a12[:4], len(a21), a21[:4]),
                       pair_replay(d1, d2, meta, {'r12': a12[:8], 'r21': a21[:8]}), size)
     return stats, nontriv, len(qcases), len(bcases), nfail
 
@@ -1008,6 +1014,17 @@ def run(rep, tier, seed, replay=None):
         for k_, v_ in hstats.items():
             pstats[k_] = pstats.get(k_, 0) + v_
         n4 += n7
+        # Bezier-Bezier pairs on an integer grid (several crossings, the redundancy marking fires),
+        # both operand orders, strict symmetry; the witnesses of the skip defect first
+        grid = [(a, b, {'config': 'integer-grid-witness', 'scale': 100.0}) for a, b in ic.SKIP_WITNESSES]
+        for i in range((30 if quick else 1500) * boost):
+            r = ic.integer_bezier_pair(rng)
+            if r:
+                grid.append(r)
+        gstats, gnontriv, gq, gb, _ = run_pairs(rep, K, tmp, grid, secs)
+        for k_, v_ in gstats.items():
+            stats[k_] = stats.get(k_, 0) + v_
+        nontriv += gnontriv; nq += gq; nb += gb
         e4 = e4 + e5 + e6 + e7
         for e in e1 + e2 + e3 + e4:
             rep.violation('C11 model-tie case file failed to evaluate', {'kind': 'cases', 'error': e},
@@ -1020,7 +1037,8 @@ def run(rep, tier, seed, replay=None):
                            '(T-junction), disjoint, near-miss (gap 1e-7..1e-3 x size), random}, paths incl. zero-length Lines and '
                            'HISTORIES (measure/intersect, edit in place via setitem/insert/append/del/pop/start/end, intersect again), plus, for the 9 Bezier kind pairs, contact exactly '
                            'on an edge of the control-polygon boxes (chains, chords through both end points, axis-parallel '
-                           'departures; integer coordinates), scales 0.01..1000, arcs circular/'
+                           'departures; integer coordinates) and integer-grid Quadratic/Cubic pairs (strict operand symmetry: same number of '
+                           'pairs, same parameters exchanged), scales 0.01..1000, arcs circular/'
                            'elliptic, rotated or not; non-trivial = at least one pair returned by either operand order (paths: '
                            'one returned entry); every returned pair is checked inside Coq: range, squared residual against '
                            '(tol x size)^2 with size = largest distance between defining points, swap symmetry within 1e-4')
